@@ -33,6 +33,7 @@ VERIFICATION_FAILURES = [
     (r"^could not prove termination", "decreases", True),
     (r"^unreachable", "panic", True),
     (r"^panic", "panic", True),
+    (r"^unable to prove post-condition of closure", "closure-postcondition", False),
     (r"^cannot prove", "other-proof", False),
     (r"^failed to ", "other-proof", False),
     (r"recommendation not met", "recommendation", True),
@@ -216,7 +217,7 @@ def classify(diags, raw, sm, woven_src):
             f["unit"] = "<specs>"
         if f["safety"]:
             f["tags"] = ["C12"]
-        elif cl and cl["tags"] and cl["kind"] in ("ens", "inv", "cens", "lens", "assert", "req", "creq"):
+        elif cl and cl["tags"] and cl["kind"] in ("ens", "inv", "cens", "lens", "assert", "req", "creq", "ghost"):
             f["tags"] = cl["tags"]
         else:
             u = sm.meta["units"].get(f["unit"])
